@@ -111,6 +111,97 @@ pub fn run(ctx: &Ctx) -> i32 {
             }
         });
     }
+
+    // the laws on frames with two blended layers above the backdrop (what one layer leaves behind must
+    // not reach the next): every (mode, opacity, source) for each of the two upper layers
+    if ctx.wants_family("stacks") {
+        use crate::common::{load, Loaded};
+        use mc_core::ase::*;
+        use mc_core::gen;
+        let backdrops = [px(90, 160, 220, 255), px(90, 160, 220, 130), px(0, 0, 0, 0)];
+        let sources = [px(200, 40, 10, 255), px(200, 40, 10, 120), px(200, 40, 10, 0)];
+        let ops = [0u8, 100, 255];
+        // upper-layer descriptor: (mode, opacity index, source index)
+        let descr: Vec<(u16, usize, usize)> = (0..19u16).flat_map(|m| (0..3).flat_map(move |o| (0..3).map(move |s| (m, o, s)))).collect();
+        let nd = descr.len();
+        let cases: Vec<(usize, usize, usize)> = (0..backdrops.len()).flat_map(|b| (0..nd).flat_map(move |x| (0..nd).map(move |y| (b, x, y)))).collect();
+        ctx.family("stacks", cases.len() as u64, "1x1 frames: a backdrop layer (opaque / translucent / transparent) under two layers, each with every mode x layer opacity {0,100,255} x source alpha {255,120,0}, the same source colour on both (87,723 stacks): (1) the frame's alpha equals the alpha of the same stack with both modes Normal; (2)-(4) applied layer by layer wherever they determine the pixel", true);
+        let render3 = |b: usize, x: (u16, usize, usize), y: (u16, usize, usize)| -> Result<u32, (String, Vec<u8>)> {
+            let fmt = mc_core::sem::Fmt::Rgba;
+            let mut f = gen::file(1, 1, &fmt, &[1]);
+            f.frames[0].push(Body::Layer(Layer::image("backdrop")));
+            for (i, d) in [x, y].iter().enumerate() {
+                let mut l = Layer::image(if i == 0 { "one" } else { "two" });
+                l.blend = d.0;
+                l.opacity = ops[d.1];
+                f.frames[0].push(Body::Layer(l));
+            }
+            f.frames[0].push(gen::raw_cel(0, 0, 0, 255, 1, 1, backdrops[b].to_le_bytes().to_vec()));
+            f.frames[0].push(gen::raw_cel(1, 0, 0, 255, 1, 1, sources[x.2].to_le_bytes().to_vec()));
+            f.frames[0].push(gen::raw_cel(2, 0, 0, 255, 1, 1, sources[y.2].to_le_bytes().to_vec()));
+            let bytes = f.encode();
+            match load(&bytes) {
+                Loaded::Ok(file) => {
+                    let mut p = Vec::new();
+                    match crate::observe::guarded(&mut p, || "frame(0).image".into(), || file.frame(0).image()) {
+                        Some(i) => Ok(u32::from_le_bytes(i.get_pixel(0, 0).0)),
+                        None => Err((format!("render panic: {}", p[0].1), bytes)),
+                    }
+                }
+                _ => Err(("the sprite does not load".into(), bytes)),
+            }
+        };
+        // Normal-mode alphas, per (backdrop, opacity/source of both layers)
+        cases.par_iter().for_each(|(b, xi, yi)| {
+            let (x, y) = (descr[*xi], descr[*yi]);
+            let case = || format!("backdrop#{} layer1=(mode {}, opacity {}, source#{}) layer2=(mode {}, opacity {}, source#{})", b, x.0, ops[x.1], x.2, y.0, ops[y.1], y.2);
+            if !ctx.wants("stacks", &case) {
+                return;
+            }
+            ctx.eval_n(1, 3);
+            let got = match render3(*b, x, y) {
+                Ok(g) => g,
+                Err((msg, bytes)) => {
+                    ctx.violation(Violation { family: "stacks".into(), case: case(), sig: format!("render-failed:{}", crate::common::sig_of(&msg)), detail: msg, bytes: Some(bytes), extra: json!({}) });
+                    return;
+                }
+            };
+            ctx.outcome(hash64(&got));
+            let mut bad: Option<(u8, String)> = None;
+            // (1) against the same stack with both modes Normal
+            if x.0 != 0 || y.0 != 0 {
+                if let Ok(n) = render3(*b, (0, x.1, x.2), (0, y.1, y.2)) {
+                    if got >> 24 != n >> 24 {
+                        bad = Some((1, format!("alpha {} but the same stack with Normal modes gives alpha {}", got >> 24, n >> 24)));
+                    }
+                }
+            }
+            // (2)-(4) layer by layer, as far as they determine the pixel
+            let mut cur: Option<[u8; 4]> = Some(backdrops[*b].to_le_bytes());
+            for d in [x, y] {
+                let s = sources[d.2].to_le_bytes();
+                let op = ops[d.1];
+                cur = match cur {
+                    Some(c) if (s[3] == 0 || op == 0) && c[3] != 0 => Some(c),
+                    Some(c) if c[3] == 0 => {
+                        let a = mul_un8(s[3], op);
+                        Some(if a == 0 { [0, 0, 0, 0] } else { [s[0], s[1], s[2], a] })
+                    }
+                    _ if d.0 == 0 && op == 255 && s[3] == 255 => Some(s),
+                    _ => None,
+                };
+            }
+            if let (Some(e), None) = (cur, &bad) {
+                let g = got.to_le_bytes();
+                if !(e == g || (e[3] == 0 && g[3] == 0)) {
+                    bad = Some((2, format!("frame pixel {:?}, but the laws applied layer by layer give {:?}", g, e)));
+                }
+            }
+            if let Some((law, msg)) = bad {
+                ctx.violation(Violation { family: "stacks".into(), case: case(), sig: format!("law{}:stack", law), detail: msg, bytes: None, extra: json!({}) });
+            }
+        });
+    }
     ctx.set_extra("pixels_checked", json!(pixels.load(Relaxed)));
     ctx.set_extra("law_applications", json!({"1_alpha_equals_normal": law_hits[0].load(Relaxed), "2_backdrop_unchanged": law_hits[1].load(Relaxed), "3_transparent_backdrop": law_hits[2].load(Relaxed), "4_normal_identity": law_hits[3].load(Relaxed)}));
     ctx.sample(json!({"mode": "hue", "backdrop": [0, 127, 255, 128], "source": [1, 1, 128, 0], "layer_opacity": 255, "cel_opacity": 255, "law": 2, "meaning": "fully transparent source over a visible backdrop: result must equal the backdrop"}));
